@@ -236,6 +236,13 @@ func (p *Printer) attrs(n *Node, tabs string) {
 	var items []func()
 	for i := range n.Attrs {
 		a := n.Attrs[i]
+		// an attribute whose name is written again later in the list is overridden by the later one
+		kind := "attr"
+		for _, later := range n.Attrs[i+1:] {
+			if later.Name == a.Name {
+				kind = "attr-shadowed"
+			}
+		}
 		items = append(items, func() {
 			if a.QuoteCh != 0 {
 				p.feat("attr.quotedname")
@@ -254,13 +261,13 @@ func (p *Printer) attrs(n *Node, tabs string) {
 			case ADynamic:
 				p.feat("attr.dynamic")
 				p.w(":" + sp)
-				p.interp("attr", a.Verb, a.Expr)
+				p.interp(kind, a.Verb, a.Expr)
 			case ABool:
 				p.feat("attr.bool")
 			case ACond:
 				p.feat("attr.cond")
 				p.w(sp + "?" + sp)
-				p.interp("attr", "", a.Expr)
+				p.interp(kind, "", a.Expr)
 			}
 		})
 	}
